@@ -32,7 +32,7 @@ def wf(x, np):
     if exact and (up, low, pr) != exp: return 'upper/lower/precision are not max code*2^-n_frac, min code*2^-n_frac, 2^-n_frac: %r' % ((str(up), str(low), str(pr)),)
     return None
 
-OPS = ['ctor', 'ctor_raw', 'ctor_dtype', 'ctor_like', 'set', 'call', 'setitem', 'resize', 'like', 'add', 'sub', 'mul', 'const', 'div', 'floordiv', 'mod', 'neg', 'abs', 'lshift', 'rshift', 'invert', 'and', 'getitem', 'sum', 'cumsum', 'dot', 'max', 'transpose', 'equal']
+OPS = ['ctor', 'ctor_raw', 'ctor_dtype', 'ctor_like', 'ctor_like_scaled', 'best_sizes', 'set', 'call', 'setitem', 'resize', 'like', 'add', 'sub', 'mul', 'const', 'div', 'floordiv', 'mod', 'neg', 'abs', 'lshift', 'rshift', 'invert', 'and', 'getitem', 'sum', 'cumsum', 'dot', 'max', 'transpose', 'equal']
 
 def rand_fmt(rng):
     nw = rng.choice([1, 2, 3, 4, 6, 8, 12, 16, 24, 32, rng.randint(1, 40)]); return (rng.random() < 0.6, nw, rng.choice([0, 1, nw // 2, nw - 1, nw, -2, nw + 3, rng.randint(-8, nw + 8)]))
@@ -57,6 +57,10 @@ def run_program(rng, res, pid):
                     lo, hi = S.fmt_bounds(s, nw); new = fx.Fxp([rng.randint(lo - 5, hi + 5) for _ in range(3)], s, nw, nf, raw=True, overflow=rng.choice(OMODES))
                 elif op == 'ctor_dtype': new = fx.Fxp(rand_vals(rng, 3), dtype='fxp-%s%d/%d' % ('s' if s else 'u', nw, nf))
                 elif op == 'ctor_like': new = fx.Fxp(rand_vals(rng, 3), like=x)
+                elif op == 'ctor_like_scaled':       # the template's sizes with a scale / bias of its own: the limits follow the new map
+                    new = fx.Fxp(rand_vals(rng, 3), like=x, scale=rng.choice([2.0, 0.5, 4, 1]), bias=rng.choice([1.0, -0.5, 0, 8])); nontriv = True
+                elif op == 'best_sizes':             # sizes inferred again from new values on an object that already has a format
+                    x.set_best_sizes(rand_vals(rng, 2), **rng.choice([{}, {'n_frac': rng.choice([0, 2])}, {'n_word': rng.choice([8, 16])}])); nontriv = True
                 elif op == 'set': x.set_val(rand_vals(rng, np.asarray(x.val).size or 1) if np.asarray(x.val).ndim else rand_vals(rng, 1)[0])
                 elif op == 'call': x(rand_vals(rng, np.asarray(x.val).size or 1) if np.asarray(x.val).ndim else rand_vals(rng, 1)[0])
                 elif op == 'setitem':
